@@ -22,11 +22,16 @@ def _create_merge_candidates(merge_expr: exp.Merge) -> exp.Expression:
 
     source = merge_expr.args.get("using")
     assert isinstance(source, exp.Expression)
-    source_id = (alias := source.args.get("alias")) and alias.this if isinstance(source, exp.Subquery) else source.this
+    # the identifier the merge refers to the source by: its alias if it has one (a subquery always has), else the table name
+    source_id = alias.this if (alias := source.args.get("alias")) else (None if isinstance(source, exp.Subquery) else source.this)
     assert isinstance(source_id, exp.Identifier)
 
     join_expr = merge_expr.args.get("on")
     assert isinstance(join_expr, exp.Binary)
+
+    # the name the merge refers to the target by: its alias if it has one
+    target_alias = target_tbl.args.get("alias")
+    target_ref = target_alias.this.sql() if target_alias else target_tbl
 
     case_when_clauses: list[str] = []
     values: set[str] = set()
@@ -80,7 +85,7 @@ def _create_merge_candidates(merge_expr: exp.Merge) -> exp.Expression:
             for c in insert_values:
                 values.update(source_columns(c))
             predicate = f"AND {condition}" if condition else ""
-            case_when_clauses.append(f"WHEN {target_tbl}.rowid is NULL {predicate} THEN {w_idx}")
+            case_when_clauses.append(f"WHEN {target_ref}.rowid is NULL {predicate} THEN {w_idx}")
 
     sql = f"""
     CREATE OR REPLACE TEMPORARY TABLE merge_candidates AS
@@ -105,7 +110,12 @@ def _mutations(merge_expr: exp.Merge) -> list[exp.Expression]:
     """
     target_tbl = merge_expr.this
     source = merge_expr.args.get("using")
-    source_tbl = source.alias if isinstance(source, exp.Subquery) else source
+    if isinstance(source, exp.Subquery):
+        source_tbl = source.alias
+    else:
+        # the name the merge refers to the source by: its alias, else its (unqualified) table name
+        source_alias = source.args.get("alias")
+        source_tbl = (source_alias.this if source_alias else source.this).sql()
     join_expr = merge_expr.args.get("on")
 
     statements: list[exp.Expression] = []
@@ -147,8 +157,11 @@ def _mutations(merge_expr: exp.Merge) -> list[exp.Expression]:
             cols = [str(c) for c in then.this.expressions] if then.this else []
             columns = f"({', '.join(cols)})" if cols else ""
             values = ", ".join(map(str, then.expression.expressions))
+            # INSERT INTO doesn't take a table alias
+            insert_target = target_tbl.copy()
+            insert_target.set("alias", None)
             insert_sql = f"""
-                INSERT INTO {target_tbl} {columns}
+                INSERT INTO {insert_target} {columns}
                 SELECT {values}
                 FROM merge_candidates AS {source_tbl}
                 WHERE {source_tbl}.merge_op = {w_idx}
